@@ -1,7 +1,7 @@
 use emmylua_parser::{LuaAstNode, LuaChunk, LuaExpr};
 
 use crate::{
-    InferFailReason, LuaDeclId, LuaSemanticDeclId, LuaSignatureId,
+    DbIndex, FileId, InferFailReason, LuaDeclId, LuaSemanticDeclId, LuaSignatureId,
     compilation::analyzer::unresolve::UnResolveModule, db_index::LuaType, infer_expr,
 };
 
@@ -32,7 +32,7 @@ pub fn analyze_chunk_return(analyzer: &mut LuaAnalyzer, chunk: LuaChunk) -> Opti
                 }
             };
 
-            let semantic_id = get_semantic_id(analyzer, expr.clone());
+            let semantic_id = get_module_semantic_id(analyzer.db, analyzer.file_id, expr.clone());
 
             let visibility = semantic_id.as_ref().and_then(|id| {
                 analyzer
@@ -58,24 +58,27 @@ pub fn analyze_chunk_return(analyzer: &mut LuaAnalyzer, chunk: LuaChunk) -> Opti
     Some(())
 }
 
-fn get_semantic_id(analyzer: &LuaAnalyzer, expr: LuaExpr) -> Option<LuaSemanticDeclId> {
+/// The declaration a module's `return` expression designates (also used when the export type
+/// could only be resolved later, so that both paths record the same facts).
+pub(crate) fn get_module_semantic_id(
+    db: &DbIndex,
+    file_id: FileId,
+    expr: LuaExpr,
+) -> Option<LuaSemanticDeclId> {
     match expr {
         LuaExpr::NameExpr(name_expr) => {
             let name = name_expr.get_name_text()?;
-            let tree = analyzer
-                .db
-                .get_decl_index()
-                .get_decl_tree(&analyzer.file_id)?;
+            let tree = db.get_decl_index().get_decl_tree(&file_id)?;
             let decl = tree.find_local_decl(&name, name_expr.get_position())?;
 
             Some(LuaSemanticDeclId::LuaDecl(decl.get_id()))
         }
         LuaExpr::ClosureExpr(closure) => Some(LuaSemanticDeclId::Signature(
-            LuaSignatureId::from_closure(analyzer.file_id, &closure),
+            LuaSignatureId::from_closure(file_id, &closure),
         )),
         // `return {}`
         LuaExpr::TableExpr(table_expr) => Some(LuaSemanticDeclId::LuaDecl(LuaDeclId::new(
-            analyzer.file_id,
+            file_id,
             table_expr.get_position(),
         ))),
         _ => None,
